@@ -17,6 +17,8 @@ from __future__ import annotations
 import itertools
 import time
 
+import math
+
 import numpy as np
 
 from runtime import oracles_C07_C09 as O
@@ -256,6 +258,13 @@ def check_detector(rec, inp):
         return False, info
     th = float(det.threshold_)
     info["threshold"] = th
+    if inp["threshold_scale"] is not None:
+        # the threshold the selection uses must be the REQUESTED one: scale x 2 p sqrt(log n) of the training shape (also for scale 0)
+        want = float(inp["threshold_scale"]) * 2 * Xfit.shape[1] * math.sqrt(math.log(Xfit.shape[0]))
+        if not close(th, want):
+            rec.violation(f"SeededBinarySegmentation:threshold:{name}", f"threshold_scale={inp['threshold_scale']} on training shape {Xfit.shape}: fitted threshold_ "
+                          f"{th} but the requested threshold is {want}", "C07.threshold", inp)
+            return True, info
     if not (th >= 0):           # outside the quantifier (tuned on a user-defined score with negative values)
         return False, info
     res, err = O.attempt(lambda: det.predict(rot_frame(X, 2)))
@@ -451,7 +460,7 @@ def _enumerate(rec, tier, seed, bound_out):
                             scales = []
                             if info["threshold"] and info["scores"] is not None and len(info["scores"]):
                                 ths = [t for t in _thresholds_from(info["scores"], 4) if t > 0]
-                                scales = [t / info["threshold"] for t in ths][: (2 if quick else 4)]
+                                scales = [0.0] + [t / info["threshold"] for t in ths][: (2 if quick else 4)]      # 0: every positive score is above the threshold
                             results = [(info["threshold"], info["cpts"])] if info["cpts"] is not None and info["threshold"] is not None else []
                             for ts in scales:
                                 d = dict(base, threshold_scale=float(ts))
